@@ -15,7 +15,8 @@ RULE = ('Hypothesis-generated SimNet programs: 1-4 interactions (stream responde
         'fragment sizes 64-1024 or none, byte-stream and message framing; in a quarter of the programs the first requests, '
         'REQUEST_N and cancels are queued while connect() is still waiting for its transport (SETUP is then inserted in '
         'front of them). Plus wide programs: 17-48 requests with multi-fragment payloads queued at once (as many partial '
-        'frames in flight as streams). Oracle: per stream the send log has '
+        'frames in flight as streams), and reconnect histories in which a fragmented request from the server is cut off by the '
+        'end of the connection (nothing received on the next connection is merged with what was left over). Oracle: per stream the send log has '
         'contiguous fragment trains and reassembles (independent reassembler) to exactly the frames the application '
         'handed over, in hand-over order, and the peer application receives the same sequence. Non-trivial = at '
         'some hand-over the send queue already held an unfinished frame of the same stream and one of the two had '
@@ -144,6 +145,35 @@ def prop(program):
     return vs
 
 
+def reconnect_cases():
+    """C17's reconnect histories with fragmentation and a server that is half-way through a fragmented request when the
+    connection ends: what arrives on the next connection is not merged with anything left over from the previous one."""
+    from harness.checks import c17
+
+    def force(case):
+        case = dict(case, frag=64, lease=False, endings=[dict(e) for e in case['endings']])
+        for e in case['endings']:
+            if e['kind'] != 'ka_timeout':
+                e['server_partial'] = True
+        return {'reconnect': case}
+
+    return c17.cases().map(force)
+
+
+def reconnect_prop(wrapped):
+    from harness.checks import c17
+    case = wrapped['reconnect']
+    prog, plan = c17.build(case)
+    tr = run_program(prog)
+    probe_uids = [u for p_ in plan for u in p_['probes']]
+    skip = set(range(len(prog['inter']))) - set(probe_uids)
+    vs = monitors.mon_delivery(tr, PID, require_complete=False, skip_uids=skip)
+    vs += monitors.mon_no_loop_errors(tr, PID)
+    info['nt'] = any(e.get('server_partial') for e in case['endings'])
+    info['classes'] = ['part=reconnect', 'reconnects=%d' % len(case['endings'])]
+    return vs
+
+
 def classify(case, vs):
     return info.get('nt', False), info.get('classes', ()), None
 
@@ -173,6 +203,9 @@ def shard(tier, seed, n, wide=False):
             for v in common.judge(stats, known, p, vs):
                 stats.violations.append((v, p))
         return stats
+    if wide == 'reconnect':
+        common.hyp_search(stats, known, reconnect_cases(), reconnect_prop, n, seed, classify=classify, shrink=False)
+        return stats
     if wide:
         from harness.checks import c01
         common.hyp_search(stats, known, c01.wide_programs(), prop, n, seed, classify=classify, shrink=False)
@@ -187,6 +220,7 @@ def run(tier, seed):
     nsh = common.NPROC
     jobs = [dict(tier=tier, seed=0, n=None)] + [dict(tier=tier, seed=s, n=total // nsh) for s in common.shard_seeds(seed, nsh)]
     jobs += [dict(tier=tier, seed=s + 17, n=(32 if tier == 'quick' else 800) // 4, wide=True) for s in common.shard_seeds(seed, 4)]
+    jobs += [dict(tier=tier, seed=s + 29, n=(200 if tier == 'quick' else 4000) // 4, wide='reconnect') for s in common.shard_seeds(seed, 4)]
     stats = common.run_shards(__name__, 'shard', jobs)
     return common.finish(PID, tier, seed, LEVEL, RULE, stats, t0, ASSUMPTIONS)
 
@@ -194,7 +228,7 @@ def run(tier, seed):
 def replay(path):
     obj = json.load(open(path))
     case = obj['case'] if 'case' in obj else obj
-    vs = prop(case)
+    vs = reconnect_prop(case) if 'reconnect' in case else prop(case)
     known = common.Known(PID)
     bad = [v for v in vs if not known.matches(v)]
     for v in vs:
